@@ -5,7 +5,7 @@ from vf import unit as U, rewrite as RW
 from vf.rstok import render
 from vf.items import impl_members, first_brace_depth0
 args = sys.argv[1:]
-rel = args[0]; names = []; rules = ["vis", "static", "attr", "constfold", "cratepath", "asserteq"]; texts = []
+rel = args[0]; names = []; rules = ["cfg", "vis", "static", "attr", "constfold", "cratepath", "asserteq"]; texts = []
 i = 1
 while i < len(args):
     if args[i] == "--rw": rules += args[i + 1].split(","); i += 2
